@@ -30,7 +30,7 @@ def red(op="D", e=None):
 
 
 def instance(name, programs, acts, cap=1, pol="block", reducers=("r1",), red_script=None,
-             mws=(), mw_script=None, mw_verdicts=(), mw_remove=None, subs=None, max_tasks=0,
+             mws=(), mw_script=None, mw_verdicts=(), mw_remove=None, mw_disp=None, subs=None, max_tasks=0,
              cb_reads=True, defects=(), kinds=(0, 1), fine_reg=False):
     """programs: list of {client: [ops]} alternatives; acts: {id: kind};
     red_script: {rid: {kind: red(...)}} (default: every reducer answers Dispatch, no effect)."""
@@ -51,8 +51,10 @@ def instance(name, programs, acts, cap=1, pol="block", reducers=("r1",), red_scr
               for ph in ("before_reduce", "before_effect", "before_dispatch")} for m in sorted(mids)}
     mw_remove = mw_remove or {}
     mr = {m: {k: mw_remove.get(m, {}).get(k, "none") for k in kinds} for m in sorted(mids)}
+    mw_disp = mw_disp or {}
+    md = {m: {k: mw_disp.get(m, {}).get(k, 0) for k in kinds} for m in sorted(mids)}
     return dict(name=name, programs=programs, acts=acts, cap=cap, pol=pol, reducers=list(reducers),
-                red_script=rs, mws=list(mws), mw_script=ms, mw_verdicts=list(mw_verdicts), mw_remove=mr,
+                red_script=rs, mws=list(mws), mw_script=ms, mw_verdicts=list(mw_verdicts), mw_remove=mr, mw_disp=md,
                 subs=subs, max_tasks=max_tasks, cb_reads=cb_reads, defects=list(defects), kinds=list(kinds),
                 fine_reg=fine_reg)
 
@@ -82,6 +84,7 @@ def mc_module(inst, modname, extends="RsStore", extra_defs="", programs=None):
         "MCMwScript": ms,
         "MCMwVerdicts": TSet(inst["mw_verdicts"]),
         "MCMwRemove": mr,
+        "MCMwDisp": Fn({m: Fn(dict(t)) for m, t in inst.get("mw_disp", {}).items()}),
         "MCSubs": TSet(sorted(subs)),
         "MCSubKind": Fn({s: c["kind"] for s, c in sorted(subs.items())}),
         "MCSubCap": Fn({s: c.get("cap", 1) for s, c in sorted(subs.items())}),
@@ -102,7 +105,7 @@ def mc_cfg(inst, body):
          " Clients <- MCClients", " Programs <- MCPrograms", " Acts <- MCActs", " Kind <- MCKind",
          " Cap = %d" % inst["cap"], ' Pol = "%s"' % inst["pol"],
          " InitReducers <- MCInitReducers", " InitMws <- MCInitMws", " RedScript <- MCRedScript",
-         " MwScript <- MCMwScript", " MwVerdicts <- MCMwVerdicts", " MwRemove <- MCMwRemove",
+         " MwScript <- MCMwScript", " MwVerdicts <- MCMwVerdicts", " MwRemove <- MCMwRemove", " MwDisp <- MCMwDisp",
          " Subs <- MCSubs", " SubKind <- MCSubKind", " SubCap <- MCSubCap", " SubPol <- MCSubPol",
          " MaxTasks = %d" % inst["max_tasks"], " CbReads = %s" % ("TRUE" if inst["cb_reads"] else "FALSE"),
          " FineReg = %s" % ("TRUE" if inst.get("fine_reg") else "FALSE"),
@@ -119,6 +122,7 @@ def harness_config(inst):
         "mw_script": {m: {ph: {str(k): v for k, v in t2.items()} for ph, t2 in t.items()}
                       for m, t in inst["mw_script"].items()},
         "mw_remove": {m: {str(k): v for k, v in t.items()} for m, t in inst["mw_remove"].items()},
+        "mw_disp": {m: {str(k): v for k, v in t.items()} for m, t in inst.get("mw_disp", {}).items()},
         "subs": inst["subs"],
         "kind": {str(a): k for a, k in inst["acts"].items()},
         "cb_reads": inst["cb_reads"],
